@@ -10,17 +10,10 @@ from propcfg import PROPS  # noqa: E402
 VERIF = os.path.join(os.path.dirname(os.path.abspath(__file__)), "..")
 
 TEXT = {
-    "C01": ("Lean theorems: C01_journal (at every reachable state, after any roll-overs and GC passes, replaying only the journal entries "
-            "located in the files still tracked reproduces the in-memory queues: nothing retained is lost to file deletion, no deleted queue "
-            "reappears), C07_roundtrip + decode_encode (every entry laid out by the writer is read back, any size, any alignment), "
-            "C05_history (the in-memory state is the specification's). The link between the two layers (the flushed image of a history is "
-            "the layout of its journal) is validated on every restart of every generated history by the differential correspondence "
-            "(image digests, recovered state) and by the driver's executable journal invariant.",
-            "Lean 4 proof (reachability invariant + GC suffix simulation; codec round-trip) + differential correspondence"),
-    "C02": ("Every crash image (effect-prefix x byte cut) of generated histories is opened by the real library and by the Lean model, compared, "
-            "and judged by the prefix-state oracle; continuation + restart on a quarter of them. Lean theorems for the byte-level torn-tail "
-            "and resume lemmas are in progress (DESIGN §6 C02); until they are integrated this check claims fault enumeration, not proof.",
-            "crash-point enumeration on the real library, differential against the executable Lean model (recover/crashImage)"),
+    "C01": ("Lean theorem C01_restart_exact: for every state reachable from an empty directory by open, any API calls and any number of earlier restarts (disk driven only by the effects the model emits through the BufWriter model; any geometry with B <= 65542, any buffer capacity, any policy), dropping the log and opening again succeeds and yields observationally the same queues (names, records incl. payloads and file handles, next positions); corollaries C01_no_resurrection, C01_no_loss, C01_obs (composes with the C05 specification). Pillars: C01_journal (GC suffix), C07_roundtrip/decode_encode (codec), read_disk/gc_disk (image = layout of the journal). Hypothesis: every journal entry serialises (positions < 2^64, names < 64 KiB: C07.WF). Tied to the code by the per-call effect/byte-hash/directory-digest/state correspondence, the restart oracle on the real library and the executable journal invariant.",
+            "Lean 4 proof (reachability invariant over log+journal+disk, codec round-trip, GC suffix simulation) + differential correspondence"),
+    "C02": ("Lean theorems C02_torn_tail (for EVERY byte cut of the written stream, reading the zero-filled crash image delivers a prefix of whole entries - m or m+1 of them, m+1 only when the lost bytes were zeros anyway - never a partial or altered entry; mid-header, mid-payload, between frames, inside padding) and C02_resume (writing on from where recovery stopped gives a stream that reads back the recovered prefix plus the new entries: the torn remnant never swallows later entries), under the explicit TornOK hypothesis (a zero-filled changed payload fails its CRC). Plus unlink_after_sync / flush_then_unlink_image (file removal ordered after the flush) and C01_restart_exact (continuations behave as on a log that never crashed). Not yet proved: the multi-file lift of the torn-tail theorem and its composition with replay into one statement about `recover` of a CrashImage; that composition is enumerated: every effect-prefix x byte-cut image of generated histories is opened by the real library and the model and judged by the prefix-state oracle, with continuation + restart.",
+            "Lean 4 proof (byte-level torn-tail + resume, effect order) + crash-point enumeration, differential"),
     "C03": ("Proved in Lean (partial): unlink_after_sync (+_open, +_split) — in the effects of every call and of open, every unlink is preceded "
             "by flush, fsync(file), fsync(dir) with no write in between; persist points — create/delete end synced, persist(a) is exactly "
             "its effects, Always(a)/due OnDelay(a) calls end flushed/synced; buffer_empty_of_flushedAtEnd and flush_then_unlink(_image) — "
@@ -52,13 +45,10 @@ TEXT = {
             "assemble_whole_entry (a delivered entry is the concatenation of a complete First..Last run with no error in between). The "
             "remaining link (a delivered frame is a genuine frame unless the CRC collides) is exercised by the damage campaign.",
             "Lean 4 proof over arbitrary images + damage enumeration, differential"),
-    "C09": ("Aimed single-frame damage on the real library and the model with the retained-records-survive oracle; Lean theorem "
-            "C09_one_frame in progress.",
-            "aimed damage enumeration, differential against the executable Lean model"),
-    "C10": ("Recovery is a total Lean function (no fuel, no partial): every reader error path makes progress by construction; crafted and "
-            "arbitrary block content, damaged/truncated/removed/duplicated files go through the real open under catch_unwind + watchdog "
-            "and through the model; outcome classes compared.",
-            "damage / crafted-input enumeration, differential against the total Lean model"),
+    "C09": ("Lean theorem C09_one_frame: for every stream of entries and every frame of it (any role: Full/First/Middle/Last, next to a block end or padding), replacing its checksum and/or payload bytes by arbitrary bytes of the same length that fail the check (explicit FrameDetected hypothesis = no CRC collision) makes the reader deliver exactly the other entries, in order, and stop where the writer stopped. The replay-level consequence (losing one entry never makes open fail nor costs a retained record of another entry) is enumerated by the aimed-damage campaign on the real library and the model.",
+            "Lean 4 proof (byte-level single-frame damage) + aimed damage enumeration, differential"),
+    "C10": ("Lean: recovery is a total function (no fuel); recover_no_panic / recover_no_panic_img: the panic-instrumented twin recoverP (checked u64 arithmetic of next_position, truncate_head, FileTracker::inc made explicit) never reports a panic for ANY image whose delivered entries carry no position 2^64-1 and whose file numbers leave room for the GC roll-overs, and the recovered queues are not poisoned (read accessors do not overflow); recover_buf_bounded (the reassembly buffer never exceeds the image size); ioCalls_bounded (no retry loop); witnesses truncate_max_panics / append_max_poisons / noMaxFiles_insufficient show the hypotheses are needed (finding F4). Partial: OS behaviour and the assert in RollingWriter::write are exercised by the damage/bytes/names campaigns under catch_unwind + watchdog, not proved.",
+            "Lean 4 proof (panic-instrumented twin of recovery) + damage / crafted-input enumeration, differential"),
     "C11": ("Lean theorems io_reported / io_irrelevant_beyond / never_partial / fault_never_ok_on_bad_image / ioCalls_bounded: for every "
             "image and every index n, a failing n-th list/open/read call yields Err(Io) iff recovery reaches it, a log returned under a "
             "fault plan is the fault-free log, and the number of I/O calls is bounded (no retry loop). Fault campaign ties it to the code.",
